@@ -1353,7 +1353,21 @@ func (f *FuncCtx) countedFor(s *ast.ForStmt, env *Env, post func(e *Env)) (map[s
 			}
 		}
 		if boundObj == nil {
-			return nil, nil, nil
+			// len(<path>) of a field path: accepted; whether the loop leaves it alone is read off the loop rule itself
+			// (the bound must denote the same term before the loop and at the havocked loop head, see implicit below)
+			if fid, ok := n.Fun.(*ast.Ident); !ok || fid.Name != "len" || len(n.Args) != 1 {
+				return nil, nil, nil
+			}
+			pure := true
+			ast.Inspect(n.Args[0], func(m ast.Node) bool {
+				if _, isCall := m.(*ast.CallExpr); isCall {
+					pure = false
+				}
+				return pure
+			})
+			if !pure {
+				return nil, nil, nil
+			}
 		}
 	case *ast.BasicLit:
 	default:
@@ -1434,6 +1448,7 @@ func (f *FuncCtx) countedFor(s *ast.ForStmt, env *Env, post func(e *Env)) (map[s
 		return nil, nil, nil
 	}
 	startT := start.T
+	boundPre := f.expr(be.Y, env).T
 	iName := "$i"
 	iNameN := fmt.Sprintf("$i%d", ord)
 	intT := types.Typ[types.Int]
@@ -1444,6 +1459,10 @@ func (f *FuncCtx) countedFor(s *ast.ForStmt, env *Env, post func(e *Env)) (map[s
 		iv := e.vars[obj].T
 		out := []string{fmt.Sprintf("(<= 0 %s)", g), fmt.Sprintf("(= %s (+ %s %s))", iv, startT, g)}
 		bound := f.expr(be.Y, e).T
+		if bound != boundPre {
+			// the loop may change what the bound denotes: no upper-bound fact
+			return out
+		}
 		if _, isLen := ast.Unparen(be.Y).(*ast.CallExpr); isLen && startT == "0" {
 			// counting from 0 up to a length: 0 <= i <= len(x) throughout
 			out = append(out, fmt.Sprintf("(<= 0 %s)", bound), fmt.Sprintf("(<= %s %s)", iv, bound))
